@@ -29,9 +29,21 @@ Definition RPC_MAX_BUFFER_SIZE : N := 1048576.
 Definition ROBEL_RDM_RESPONSE : N := 17.
 Definition ROBEL_RDM_DISCOVERY_RESPONSE : N := 19.
 Definition ROBEL_DMX_IN_RESPONSE : N := 5.
+Definition ENTL_GET_PARAMS_1 : N := 3.
+Definition ENTL_RDM_TIMEOUT_1 : N := 12.
+Definition ENTL_RECEIVED_DMX_LABEL_1 : N := 5.
+Definition ENTL_COS_DMX_1 : N := 9.
+Definition ENTL_GET_PARAMS_2 : N := 137.
+Definition ENTL_RDM_TIMEOUT_2 : N := 201.
+Definition ENTL_RECEIVED_DMX_LABEL_2 : N := 156.
+Definition ENTL_COS_DMX_2 : N := 164.
 From Coq Require Import List.
 Definition ACN_HEADER : list N := (cons 65 (cons 83 (cons 67 (cons 45 (cons 69 (cons 49 (cons 46 (cons 49 (cons 55 (cons 0 (cons 0 (cons 0 nil)))))))))))).
 Definition ACN_HEADER_SIZE : N := 12.
 Definition ACN_INITIAL_SIZE : N := 500.
 (* label -> handler of RobeWidgetImpl::HandleMessage: 1 HandleRDMResponse, 2 HandleDiscoveryResponse, 3 HandleDmxFrame; labels not listed fall into the default branch *)
 Definition ROBE_DISPATCH : list (N * N) := (cons (pair ROBEL_RDM_RESPONSE 1) (cons (pair ROBEL_RDM_DISCOVERY_RESPONSE 2) (cons (pair ROBEL_DMX_IN_RESPONSE 3) nil))).
+(* EnttecUsbProWidgetImpl::HandleLabel: label -> (port, handler): 1 HandleParameters, 2 HandleRDMTimeout, 3 HandleIncomingDataMessage, 4 HandleDMXDiff; port 2 labels apply above the threshold on a dual-port widget *)
+Definition ENTTEC_DISPATCH : list (N * (N * N)) := (cons (pair ENTL_GET_PARAMS_1 (pair 1 1)) (cons (pair ENTL_RDM_TIMEOUT_1 (pair 1 2)) (cons (pair ENTL_RECEIVED_DMX_LABEL_1 (pair 1 3)) (cons (pair ENTL_COS_DMX_1 (pair 1 4)) (cons (pair ENTL_GET_PARAMS_2 (pair 2 1)) (cons (pair ENTL_RDM_TIMEOUT_2 (pair 2 2)) (cons (pair ENTL_RECEIVED_DMX_LABEL_2 (pair 2 3)) (cons (pair ENTL_COS_DMX_2 (pair 2 4)) nil)))))))).
+Definition ENTTEC_PORT2_THRESHOLD : N := 128.
+Definition ENTTEC_PORT_ASSIGNMENT_LABEL : N := 141.
